@@ -10,10 +10,10 @@ CONSTANTS
   TailAlpha = {"a", " ", ">", "|"}
   LongLens = {9, 10, 11}
   SeqAlphaA = {"A", "-"}
-  SeqLensA = {1, 2, 3, 4, 5, 6}
+  SeqLensA = {1, 2, 3, 4, 5}
   SeqAlphaB = {"A", "C", "-"}
   SeqLensB = {3}
-  HomoLens = {7, 8, 9}
+  HomoLens = {6, 7, 8, 9}
   PairAlpha = {}
   PairLen = 0
 INVARIANT TypeOK
